@@ -27,10 +27,15 @@ def outcome(fn):
 
 def main():
     srcs = json.load(sys.stdin)
+    same_path = False
+    if isinstance(srcs, dict):
+        # {"contents": [...], "same_path": true}: every content is written to ONE path in turn (a script edited and parsed again in one process)
+        same_path = bool(srcs.get("same_path"))
+        srcs = srcs["contents"]
     d = tempfile.mkdtemp(prefix="xpverif-c12-")
     out = []
     for i, s in enumerate(srcs):
-        p = Path(d) / f"m{i}.py"
+        p = Path(d) / ("script.xsh" if same_path else f"m{i}.py")
         p.write_bytes(s.encode("utf-8", "surrogatepass") if isinstance(s, str) else bytes(s))
         a = outcome(lambda: XonshParser.parse_file(p))
         # the string a caller would hand over for the same content: decoded as UTF-8 with universal newlines, as CPython reads source
